@@ -17,7 +17,8 @@ TITLE = 'Results do not depend on how the edit API is driven or on status settin
 LEVEL = 'exploration'
 TECHNIQUE = ('stateful / history-based: Hypothesis-generated operation sequences over the public edit API (handles into '
              'nested sub-edits, bursts of refinement without reads) and bounded-exhaustive interleavings on fixed pairs, '
-             'x quiet/colour printer settings, compared with a reference run under the canonical driver')
+             'x quiet/colour printer settings, compared with a reference run under the canonical driver; suspended listings, len()/bool() '
+             'and every has_non_zero_cost() answer are part of the histories')
 RULE = ("[also: len(edit) and bool(edit) are history operations too; a 'lazy' operation starts a listing (edits() is a generator), takes 0-3 items and leaves it suspended while the history continues; finished at the end it must name exactly the sub-edits a fresh listing names; every has_non_zero_cost() answer given during a history is compared with the edit's final cost; a multiset family (lists read as multisets, with duplicates); sub-edit listings repeated within a history must name the same edits; a family of lists of records with long keys exercises cost ties in the last alignment cell; a high-volume 'light' job (record lists and lists of variants of one or two base records) compares only three drivers: refine to the end, list sub-edits first then refine, TreeNode.diff] A case is (pair, options, printer config {quiet, colour}, history). The history is a list of operations "
         "[bounds | tighten xk with no read in between | is_complete | valid | has_non_zero_cost | edits (sub-edits join "
         "the handle pool, so nested edits are driven directly and out of order) | edits twice], each applied to a handle "
